@@ -1,5 +1,40 @@
-(* Props/C08.v — placeholder while the proofs are being developed *)
-From RBQL Require Import Base Parser.
-Example C08_placeholder : cleanup_query LPy [] = [].
-Proof. reflexivity. Qed.
-Print Assumptions C08_placeholder.
+(* Props/C08.v — Query meaning is invariant under spelling; string literals are opaque.
+   ONLY statements: each closed by [exact <lemma>] with Print Assumptions beneath. *)
+From RBQL Require Import Base Parser Parser_Proofs.
+Local Open Scope N_scope.
+
+(* C08_cleanup_invariant. A query text is a list of physical lines (each without LF) joined by LF.
+   [spell_step fl] (Parser_Proofs.v) is one spelling step on the lines:
+     ss_insert : insert a line l with strip_comments l = [] (a comment line or a blank line) anywhere;
+     ss_pad    : add blanks w1 / w2 (any whitespace of the language's strip) before / after a line;
+     ss_break  : replace the single space between two words of a line "... a SP b ..." by a line break followed
+                 by any indentation, provided the line is a code line (its first non-blank character is not the
+                 comment character) and the word after the break does not start with the comment character
+                 (otherwise the second half WOULD become a comment line: a hypothesis the code forces);
+     ss_semis  : append any number of semicolons to the last line, when that line ends in a non-blank.
+   [spell_equiv] is the reflexive-symmetric-transitive closure. cleanup_query does not see any of it. *)
+Theorem C08_cleanup_invariant : forall (fl : lang) (ls ls' : list str),
+  Forall nolf ls -> Forall nolf ls' -> spell_equiv fl ls ls' ->
+  cleanup_query fl (join [LF] ls) = cleanup_query fl (join [LF] ls').
+Proof. exact cleanup_invariant. Qed.
+Print Assumptions C08_cleanup_invariant.
+
+(* each single step, on the cleaned text of the lines *)
+Theorem C08_cleanup_step : forall (fl : lang) (ls ls' : list str),
+  spell_step fl ls ls' -> cleanup_lines fl ls = cleanup_lines fl ls'.
+Proof. exact spell_step_sound. Qed.
+Print Assumptions C08_cleanup_step.
+
+Theorem C08_cleanup_of_lines : forall (fl : lang) (ls : list str),
+  Forall nolf ls -> cleanup_query fl (join [LF] ls) = cleanup_lines fl ls.
+Proof. exact cleanup_of_lines. Qed.
+Print Assumptions C08_cleanup_of_lines.
+
+(* non-vacuity: "select a1 where a2" and its respelling over three lines with a comment line, indentation and
+   two semicolons are related, LF-free line by line, different as texts, and clean up to the one-line query *)
+Example C08_cleanup_nonvacuous :
+  Forall nolf ex_lines0 /\ Forall nolf ex_lines3 /\ spell_equiv LPy ex_lines0 ex_lines3 /\
+  cleanup_query LPy (join [LF] ex_lines3) = [115; 101; 108; 101; 99; 116; 32; 97; 49; 32; 119; 104; 101; 114; 101; 32; 97; 50] /\
+  join [LF] ex_lines0 <> join [LF] ex_lines3.
+Proof. exact spell_equiv_example. Qed.
+Print Assumptions C08_cleanup_nonvacuous.
